@@ -242,8 +242,23 @@ func (matrix *DenseFloat32Matrix) Tip() {
   matrix.rowOffset, matrix.colOffset = matrix.colOffset, matrix.rowOffset
   matrix.rowMax, matrix.colMax = matrix.colMax, matrix.rowMax
 }
+func (matrix *DenseFloat32Matrix) asVector() DenseFloat32Vector {
+  if matrix.rows != matrix.rowMax || matrix.cols != matrix.colMax {
+    // sliced matrix: collect the elements of the slice
+    n, m := matrix.Dims()
+    v := make([]float32, n*m)
+    for i := 0; i < n; i++ {
+      for j := 0; j < m; j++ {
+        v[i*m + j] = matrix.values[matrix.index(i, j)]
+      }
+    }
+    return DenseFloat32Vector(v)
+  } else {
+    return DenseFloat32Vector(matrix.values)
+  }
+}
 func (matrix *DenseFloat32Matrix) AsVector() Vector {
-  return DenseFloat32Vector(matrix.values)
+  return matrix.asVector()
 }
 func (matrix *DenseFloat32Matrix) storageLocation() uintptr {
   return uintptr(unsafe.Pointer(&matrix.values[0]))
@@ -332,7 +347,7 @@ func (matrix *DenseFloat32Matrix) IsSymmetric(epsilon float64) bool {
   return true
 }
 func (matrix *DenseFloat32Matrix) AsConstVector() ConstVector {
-  return DenseFloat32Vector(matrix.values)
+  return matrix.asVector()
 }
 /* implement ScalarContainer
  * -------------------------------------------------------------------------- */
